@@ -3,12 +3,12 @@ CONSTANTS
   Tm = 15
   Ta = 8
   DSecs = {2, 3}
-  T0s <- T0All
+  T0s <- T0Quick
   Ks <- KsDef
   StartNrs = {0, 1}
   Shorts = {0, 1}
   NSeg = 5
-  Fixed = TRUE
+  Arith = "proposed"
 INVARIANT InvTune
 INVARIANT InvKeep
 INVARIANT InvGrid
